@@ -50,8 +50,8 @@ def tamper(path, how, keep_protected=False, near=False):
         # only the inode tells the difference
         os.utime(path, ns=(orig_ns, orig_ns))
     elif near:
-        # the tampering lands in the same second as the original write: mtime differs by 1 microsecond
-        os.utime(path, ns=(orig_ns + 1000, orig_ns + 1000))
+        # the tampering lands in the same second as the original write: mtime differs by half a microsecond
+        os.utime(path, ns=(orig_ns + 500, orig_ns + 500))
     else:
         stamp(path)
     return new
